@@ -397,7 +397,7 @@ fn main() {
         emit("LessThanN::float", format!("(lt f {} {})", xf(n), xf(v)));
     }
 
-    // 2. EveryN (n = 0 included: remainder by zero)
+    // 2. EveryN (n = 0 is inside the domain: true exactly at value 0)
     for &n in &UGRID { for &v in &UGRID { emit("EveryN::evaluate", format!("(every {n} {v})")); } }
     for n in 0..=12u64 { for v in 0..=36u64 { emit("EveryN::evaluate", format!("(every {n} {v})")); } }
     for _ in 0..(if t { 40_000 } else { 3_000 }) {
